@@ -7,7 +7,8 @@
 EXTENDS IpcDict, TLC
 
 CONSTANTS Kinds, Handlings, NDs, Vals, MaxLen, MaxWrites,
-          ContinueAfterError     \* FALSE: a refused write ends the session (finish only)
+          ContinueAfterError,    \* FALSE: a refused write ends the session (finish only)
+          Rich                   \* TRUE: the full set of evolutions; FALSE: one representative per class
 
 VARIABLE phase                   \* "init" before the writer exists
 mvars == <<dvars, phase>>
@@ -23,15 +24,19 @@ Fresh(d) ==
 Rev(s) == [i \in 1..Len(s) |-> s[Len(s) + 1 - i]]
 
 (* the dictionaries one id may present in the next batch *)
-FirstDicts == {<<>>} \cup {<<v>> : v \in Vals} \cup {<<v, w>> : v \in {CHOOSE x \in Vals : TRUE}, w \in Vals}
+V1 == CHOOSE x \in Vals : TRUE
+V2 == CHOOSE x \in Vals : x # V1
+FirstDicts == IF Rich THEN {<<>>} \cup {<<v>> : v \in Vals} \cup {<<V1, w>> : w \in Vals}
+              ELSE {<<>>, <<V1>>, <<V1, V2>>}
 NextVals(d) ==
   IF given = <<>> THEN FirstDicts
   ELSE LET v == Last(d).vals  n == Len(v) IN
        {v}                                                                   \* equal copy
        \cup (IF n < MaxLen THEN {Append(v, x) : x \in Vals} ELSE {})          \* extended
-       \cup (IF n > 0 THEN {SubSeq(v, 1, n - 1), <<>>, Rev(v)} ELSE {})       \* shrunk, emptied, reversed
+       \cup (IF n > 0 THEN {SubSeq(v, 1, n - 1)} ELSE {})                     \* shrunk
        \cup (IF n > 0 THEN {[v EXCEPT ![n] = x] : x \in Vals} ELSE {})        \* last entry changed
-       \cup (IF n > 1 THEN {[v EXCEPT ![1] = x] : x \in Vals} ELSE {})        \* first entry changed
+       \cup (IF Rich /\ n > 0 THEN {<<>>, Rev(v)} ELSE {})                    \* emptied, reversed
+       \cup (IF Rich /\ n > 1 THEN {[v EXCEPT ![1] = x] : x \in Vals} ELSE {}) \* first entry changed
 
 Choices(d) ==
   {Dict(v, Fresh(d)) : v \in NextVals(d)} \cup (IF given = <<>> THEN {} ELSE {Last(d)})   \* ... or the same array
